@@ -13,6 +13,52 @@ def _payload_of(nv, pl):
     return None
 
 
+def _resolve(nv, pl):
+    """(base local, field indices) of a place whose projections are plain struct / tuple fields, looking through
+    references taken on this path (`_r = &_s; (*_r).f`)"""
+    base = pl["l"]
+    idxs = []
+    proj = list(pl["proj"])
+    while proj and proj[0] == "deref":
+        r = nv.get(("ref", base))
+        if r is None:
+            return None
+        base, idxs = r[0], list(r[1])
+        proj = proj[1:]
+    for e in proj:
+        if isinstance(e, dict) and "f" in e and not e.get("variant"):
+            idxs.append(e["f"])
+        else:
+            return None
+    return base, tuple(idxs)
+
+
+def _place_val(nv, pl):
+    """what the place holds on this path, when it is a tracked local or a field of a struct built on this path"""
+    r = _resolve(nv, pl)
+    if r is None:
+        return None
+    base, idxs = r
+    if not idxs:
+        return nv.get(base)
+    if len(idxs) == 1:
+        return nv.get(("fld", base, idxs[0]))
+    return None
+
+
+def _forget_fields(nv, l):
+    for k in [k for k in nv if isinstance(k, tuple) and len(k) == 3 and k[0] == "fld" and k[1] == l]:
+        nv.pop(k)
+
+
+def _discr_value(body, v):
+    if isinstance(v, tuple) and v and v[0] == "v":
+        for vv in body.facts.adts.get(v[1], {}).get("variants", []):
+            if vv["name"] == v[2]:
+                return vv["discr"]
+    return None
+
+
 def explore(body, start_bb, root_is, mark_pred, init_constraints=None, max_paths=4000, stop_pred=None,
             switch_hook=None):
     """Enumerate acyclic paths from start_bb to blocks without successors.
@@ -31,12 +77,84 @@ def explore(body, start_bb, root_is, mark_pred, init_constraints=None, max_paths
         # a switch on a local whose value on this path is a known constant follows only that edge
         nv = None
         for s_ in body.blocks[bb]["stmts"]:
+            if s_["k"] == "assign" and s_["dst"]["proj"]:
+                # a store into a field of a struct whose fields are tracked on this path
+                if nv is None:
+                    nv = dict(vals)
+                rd_ = _resolve(nv, s_["dst"])
+                if rd_ is not None and len(rd_[1]) == 1:
+                    sv_ = None
+                    rvs_ = s_["rv"]
+                    if "use" in rvs_:
+                        cs_ = rvs_["use"].get("const")
+                        ps_ = rvs_["use"].get("copy") or rvs_["use"].get("move")
+                        if cs_ is not None and "value" in cs_:
+                            sv_ = cs_["value"]
+                        elif ps_ is not None:
+                            sv_ = _place_val(nv, ps_)
+                    elif "agg" in rvs_ and rvs_["agg"]["kind"] == "adt" and rvs_["agg"].get("variant"):
+                        sv_ = ("v", rvs_["agg"]["adt"], rvs_["agg"]["variant"], None)
+                    if sv_ is None:
+                        nv.pop(("fld", rd_[0], rd_[1][0]), None)
+                    else:
+                        nv[("fld", rd_[0], rd_[1][0])] = sv_
+                elif rd_ is not None:
+                    _forget_fields(nv, rd_[0])
+                continue
             if s_["k"] == "assign" and not s_["dst"]["proj"]:
                 l_ = s_["dst"]["l"]
                 rv_ = s_["rv"]
                 c_ = rv_.get("use", {}).get("const") if "use" in rv_ else None
                 if nv is None:
                     nv = dict(vals)
+                _forget_fields(nv, l_)
+                nv.pop(("ref", l_), None)
+                if "agg" in rv_ and rv_["agg"]["kind"] in ("adt", "tuple") and not rv_["agg"].get("variant"):
+                    # struct / tuple built on this path: what each field holds
+                    for i_, op_ in enumerate(rv_["ops"]):
+                        cf_ = op_.get("const")
+                        pf_ = op_.get("copy") or op_.get("move")
+                        fv_ = None
+                        if cf_ is not None and "value" in cf_:
+                            fv_ = cf_["value"]
+                        elif pf_ is not None:
+                            fv_ = _place_val(nv, pf_)
+                        if fv_ is not None and not (isinstance(fv_, tuple) and fv_ and fv_[0] == "callres"):
+                            nv[("fld", l_, i_)] = fv_
+                    nv.pop(l_, None)
+                    nv.pop(("a", l_), None)
+                    continue
+                if "ref" in rv_:
+                    rr_ = _resolve(nv, rv_["ref"])
+                    if rr_ is not None:
+                        if rv_.get("mut"):
+                            # a unique borrow may be written through: stop tracking what is behind it
+                            if rr_[1]:
+                                nv.pop(("fld", rr_[0], rr_[1][0]), None)
+                            else:
+                                _forget_fields(nv, rr_[0])
+                        else:
+                            nv[("ref", l_)] = rr_
+                    nv.pop(l_, None)
+                    nv.pop(("a", l_), None)
+                    continue
+                if "use" in rv_:
+                    pu_ = rv_["use"].get("copy") or rv_["use"].get("move")
+                    if pu_ is not None and not pu_["proj"] and ("ref", pu_["l"]) in nv:
+                        nv[("ref", l_)] = nv[("ref", pu_["l"])]
+                    if pu_ is not None and pu_["proj"] and len(pu_["proj"]) != 2 or \
+                            (pu_ is not None and len(pu_["proj"]) == 2 and _payload_of(nv, pu_) is None):
+                        fv_ = _place_val(nv, pu_)
+                        if fv_ is not None and not (isinstance(fv_, tuple) and fv_ and fv_[0] == "callres"):
+                            nv[l_] = fv_
+                            nv.pop(("a", l_), None)
+                            continue
+                if "discr" in rv_ and rv_["discr"]["proj"]:
+                    dv_ = _discr_value(body, _place_val(nv, rv_["discr"]))
+                    if dv_ is not None:
+                        nv[l_] = dv_
+                        nv.pop(("a", l_), None)
+                        continue
                 if "agg" in rv_ and rv_["agg"]["kind"] == "adt" and rv_["agg"].get("variant"):
                     # enum value built on this path: later matches on it follow that variant only
                     pay_ = None
@@ -164,6 +282,11 @@ def explore(body, start_bb, root_is, mark_pred, init_constraints=None, max_paths
             pl_ = on_.get("copy") or on_.get("move")
             if pl_ is not None and not pl_["proj"] and pl_["l"] in vals and not isinstance(vals[pl_["l"]], tuple):
                 known = vals[pl_["l"]]
+            elif pl_ is not None and not pl_["proj"] and pl_.get("ty") == "bool":
+                # a copy of a boolean that was already tested on this path (`let dup = ..; if dup {..} .. if dup || ..`)
+                ra_ = vals.get(("a", pl_["l"]))
+                if ra_ is not None and ra_ in vals and not isinstance(vals[ra_], tuple):
+                    known = vals[ra_]
         if known is None and bb in body.switches and key is None and not (si is not None and switch_hook is not None and False):
             # remember the outcome of a test on a plain boolean local for later tests of the same local
             on_ = body.switches[bb]["on"]
@@ -445,6 +568,15 @@ def value_on_path(body, path, local=0, upto=None):
                 i -= 1
                 continue
             if kind == "call":
+                cobj = body.calls.get(pay)
+                if cobj is not None and cobj.path == "core::ops::FromResidual::from_residual" and cobj.args and hops < 24:
+                    # `?` on a value that is Err(e) on this path: Err(From::from(e))
+                    apl = cobj.args[0].get("move") or cobj.args[0].get("copy")
+                    if apl is not None and not apl["proj"]:
+                        a = val(apl["l"], i - 1, hops + 1)
+                        if isinstance(a, tuple) and a[0] == "agg" and a[1] == "adt" and a[2] == "core::result::Result" and a[3] == "Err" and a[5]:
+                            conv = ("call", pay, "core::convert::From::from", [a[5][0]], "core::convert::From::from")
+                            return ("agg", "adt", "core::result::Result", "Err", ["0"], [conv])
                 return body.call_term(pay)
             rv = pay
             if hops < 24:
@@ -458,6 +590,12 @@ def value_on_path(body, path, local=0, upto=None):
                         base = val(pl["l"], i - 1, hops + 1)
                         if isinstance(base, tuple) and base[0] == "agg" and base[1] == "adt" and base[3] == pl["proj"][0]["downcast"] and base[5]:
                             return base[5][0]
+                    # result component of a checked operation computed on this path: `(_t.0)` with _t = Add(a, b)
+                    if pl is not None and len(pl["proj"]) == 1 and isinstance(pl["proj"][0], dict) and pl["proj"][0].get("f") == 0 \
+                            and not pl["proj"][0].get("variant"):
+                        base = val(pl["l"], i - 1, hops + 1)
+                        if isinstance(base, tuple) and base[0] == "bin" and base[1].endswith("WithOverflow"):
+                            return ("field", base, "0", None, None)
                 if "un" in rv and rv["un"] == "Not":
                     pl = rv["a"].get("move") or rv["a"].get("copy")
                     if pl is not None and not pl["proj"]:
@@ -483,6 +621,14 @@ def value_on_path(body, path, local=0, upto=None):
                         if pl is not None and not pl["proj"]:
                             v2 = val(pl["l"], i - 1, hops + 1)
                             ops2.append(v2 if v2 is not None else t[5][k])
+                        elif pl is not None and len(pl["proj"]) == 2 and isinstance(pl["proj"][0], dict) and "downcast" in pl["proj"][0] \
+                                and isinstance(pl["proj"][1], dict) and pl["proj"][1].get("f") == 0:
+                            # the payload of a value built on this path (`Err((r as Err).0)` re-wrapping r's error)
+                            base = val(pl["l"], i - 1, hops + 1)
+                            if isinstance(base, tuple) and base[0] == "agg" and base[1] == "adt" and base[3] == pl["proj"][0]["downcast"] and base[5]:
+                                ops2.append(base[5][0])
+                            else:
+                                ops2.append(t[5][k])
                         else:
                             ops2.append(t[5][k])
                     return (t[0], t[1], t[2], t[3], t[4], ops2)
